@@ -65,8 +65,16 @@ def _obligations_phase(mod, tier):
     prop = mod.ID
     obl = []
     gen = leanio.regenerate()
+    unavailable = []
     for g in getattr(mod, "GEN_DEPENDS", []):
         err = gen.get(g, "no such generator")
+        if err is not None and g in gen:
+            # The translator declined: the source left the subset it reads (or it failed on an unexpected shape).  That is a
+            # limit of tie (A), not a broken proof obligation: the previous Gen file stays in place, the theorems are still
+            # checked, and the hand model stays tied to the code by the correspondence (tie B).  The property module's
+            # targeted search is run all the same, and the run reports which kernels were not re-read from the source.
+            unavailable.append({"name": "Gen/%s.lean regenerated from the current source" % g, "detail": err, "kind": "generation"})
+            continue
         obl.append({"name": "Gen/%s.lean regenerated from the current source" % g, "ok": err is None,
                     "detail": err or "ok", "kind": "generation"})
     props_module = getattr(mod, "PROPS_MODULE", "DendroModel.Props." + prop)
@@ -104,7 +112,7 @@ def _obligations_phase(mod, tier):
         obl.append({"name": "%s declares property theorems" % props_module, "ok": False, "detail": "none found", "kind": "audit"})
     drv = getattr(mod, "DRIVER", "drv_" + prop.lower())
     snap = leanio.snapshot_driver(drv) if (drv and driver_ok) else None
-    info = {"driver_path": snap, "driver_name": drv, "closure": sorted(closure), "external_imports": leanio.external_imports(closure),
+    info = {"tie_a_unavailable": unavailable, "driver_path": snap, "driver_name": drv, "closure": sorted(closure), "external_imports": leanio.external_imports(closure),
             "axioms_used": sorted(axioms_seen), "driver_ok": driver_ok,
             "checker_cmd": "cd lean && lake build %s && lake env lean <audit file with `#print axioms` for the %d theorems of %s>" % (
                 " ".join(targets), len(theorems), props_module)}
@@ -185,8 +193,11 @@ def check(prop, tier, seed, replay_path=None):
     try:
         ctx.t0 = time.time()     # the exploration budget starts here: waiting for the build lock must not eat it
         mod.run(ctx)
-        if (broken or ctx.disagreements) and hasattr(mod, "search"):
-            mod.search(ctx, broken)
+        unavailable = info.get("tie_a_unavailable", [])
+        if (broken or unavailable or ctx.disagreements) and hasattr(mod, "search"):
+            # a kernel the translator could not re-read is searched like a broken obligation (the code changed there),
+            # but only a failing input or a disagreement can turn it into a violation
+            mod.search(ctx, broken + unavailable)
     except common.Timeout:
         raise
     except Exception:
@@ -241,6 +252,7 @@ def check(prop, tier, seed, replay_path=None):
         "trusted_base": common.GLOBAL_TRUSTED_BASE + list(getattr(mod, "MODELLED_NOT_VERIFIED", [])),
         "obligation_list": [{"name": o["name"], "ok": o["ok"], "detail": str(o["detail"])[:200]} for o in obl],
         "theorems": len(theorems),
+        "tie_a_unavailable": [{"name": u["name"], "detail": str(u["detail"])[:300]} for u in info.get("tie_a_unavailable", [])],
         "axioms_used": info["axioms_used"],
         "lean_modules": info["closure"],
         "external_imports": info["external_imports"],
@@ -262,6 +274,9 @@ def check(prop, tier, seed, replay_path=None):
     cov.update({k: v for k, v in ctx.extra.items() if k != "exhaustive"})
     common.write_evidence(prop, tier, seed, cov, list(getattr(mod, "ASSUMPTIONS", [])), wall,
                           len(violations) + (1 if (not violations and exit_code) else 0))
+    for u in info.get("tie_a_unavailable", []):
+        print("TIE-A-UNAVAILABLE: property=%s %s -- %s (translator declined; the committed Gen file, the theorems and the "
+              "correspondence stay in force; targeted search run)" % (prop, u["name"], str(u["detail"])[:200]))
     for l in out_lines:
         print(l)
     print("%s tier=%s seed=%d: obligations %d/%d, %d evaluations (%d distinct non-trivial), %d compared with the model, "
